@@ -71,7 +71,7 @@ ASSUMPTIONS = [
     "chan: the model is at linearization-point granularity (one step = one atomic effect on the abstract FIFO / waiter queues); the step-level lock-free protocols (ring indices, tickets, chain links, park/unpark) are the subject of the layer-B models tied by atomic-action traces (props/spscb.py, mpsc3b.py, mpmc2b.py, rdvb.py)",
     "chan: sequentially consistent executions only (the scheduler shim runs one thread at a time)",
     "chan: concurrent specification is deliberately weaker than an atomic FIFO where the code is: try_recv may report Empty / try_send Full while another send is in flight (claimed-but-unwritten ticket, SKIP tombstones, swap-then-link), `len`-based probes of the lock-free families are not compared in concurrent histories; SKIP tombstones of overshooting bounded-mpsc claims (any send form racing another) count as occupancy until the consumer walks over them, so a later try_send may report Full below capacity (only after two sends overlapped and before the consumer next walks to the end of the ring with no send in flight)",
-    "chan: operations that are several atomic steps in the code are several steps in the concurrent specification: oneshot send = claim (WRITING) / second look at receiver_dropped / publish / drop of the consumed Sender; spsc sender close = producer_dropped store / sender_count decrement (finding N6); batches on the lock-free rings move item by item",
+    "chan: operations that are several atomic steps in the code are several steps in the concurrent specification: oneshot send = claim (WRITING) / second look at receiver_dropped / publish / drop of the consumed Sender; spsc sender close = producer_dropped store / sender_count decrement (no receive form observes the flag since fix 23f212c of finding N6); batches on the lock-free rings move item by item",
     "chan: usize counters are 64-bit and wrap (release profile); values are distinct small integers",
 ]
 
